@@ -304,7 +304,7 @@ class Choices(DecisionPoint):
         raise ValueError(
             f'Expect an integer for a single choice, but encountered: '
             f'{dna.value!r}, Location: {self.location.path}.')
-      if dna.value >= len(self.candidates):
+      if dna.value < 0 or dna.value >= len(self.candidates):
         raise ValueError(
             f'Choice out of range. Value: {dna.value}, '
             f'Candidates: {len(self.candidates)}, '
@@ -343,7 +343,7 @@ class Choices(DecisionPoint):
           raise ValueError(
               f'Choice value should be int. Encountered: {sub_dna.value}, '
               f'Location: {sub_location.path}.')
-        if sub_dna.value >= len(self.candidates):
+        if sub_dna.value < 0 or sub_dna.value >= len(self.candidates):
           raise ValueError(
               f'Choice out of range. Value: {sub_dna.value}, '
               f'Candidates: {len(self.candidates)}, '
